@@ -95,7 +95,10 @@ def do_convert(sim, rec):
         w.probes["convert_source_with_empty_edge"] += 1
     if has_iso:
         w.probes["convert_source_with_isolated_node"] += 1
-    nt, et = homogeneous(list(m.nodes)), homogeneous(list(m.edges))
+    # (labels as they appear inside the member sets count too: 4 and 4.0 are the same node but
+    # cast to different strings)
+    nt = homogeneous(list(m.nodes) + [x for e in m.edges for x in m.all_members(e)])
+    et = homogeneous(list(m.edges))
     fake = dict(rec, op="convert:" + rep)
     new_kind = "H"
     exp = M.Exp(nodes_order_free=True, edges_order_free=True)
